@@ -152,8 +152,8 @@ class Ctx:
         return ("EXITCODE: OK" in p.stdout and p.returncode == 0), p.stdout
 
     # ------------------------------------------------------------------ Go
-    def harness(self, pkg="stun", tags=("verif",), race=False):
-        key = (pkg, tuple(tags), race)
+    def harness(self, pkg="stun", tags=("verif",), race=False, fuzz=None):
+        key = (pkg, tuple(tags), race, fuzz)
         if key in self.bins:
             return self.bins[key]
         sub = "" if pkg == "stun" else "internal/hmac"
@@ -165,10 +165,12 @@ class Ctx:
         ov = self.path("overlay_%s.json" % pkg)
         with open(ov, "w") as fh:
             json.dump({"Replace": repl}, fh)
-        out = self.path("h_%s_%s%s.test" % (pkg, "_".join(tags), "_race" if race else ""))
+        out = self.path("h_%s_%s%s%s.test" % (pkg, "_".join(tags), "_race" if race else "", "_fuzz" if fuzz else ""))
         cmd = ["go", "test", "-c", "-vet=off", "-tags", ",".join(tags), "-overlay", ov, "-o", out]
         if race:
             cmd.append("-race")
+        if fuzz:
+            cmd.append("-fuzz=" + fuzz)     # coverage instrumentation for the fuzzing engine
         cmd.append("./" + sub if sub else ".")
         t = time.time()
         p = subprocess.run(cmd, cwd=self.repo, env=go_env(), stdout=subprocess.PIPE, stderr=subprocess.STDOUT, text=True)
